@@ -1028,7 +1028,15 @@ func (c *cenv) lvalue(e ast.Expr) (loc string, t types.Type, ok bool) {
 				// index terms written in contracts are instantiation points too
 				c.fv.instantiateLazies2(idx, bvSort(64), canonType(s.Elem()))
 			}
-			return lelem("(sarr "+x.T+")", "(bvadd (soff "+x.T+") "+idx+")"), s.Elem(), true
+			loc := lelem("(sarr "+x.T+")", "(bvadd (soff "+x.T+") "+idx+")")
+			if sel, isSel := ast.Unparen(e.X).(*ast.SelectorExpr); isSel && len(c.fv.eng.nilable) > 0 {
+				if bx := c.expr(sel.X); bx.Typ != nil {
+					if pt, isP := types.Unalias(bx.Typ).Underlying().(*types.Pointer); isP && c.fv.eng.nilable[canonType(pt.Elem())+"#"+sel.Sel.Name] {
+						c.fv.nilableLocs[loc] = true
+					}
+				}
+			}
+			return loc, s.Elem(), true
 		}
 	case *ast.Ident:
 		// address-taken local bound as pointer? not supported
